@@ -32,7 +32,16 @@ def gen_history(rng, length, malformed_rate=0.08):
             continue
         sig = rng.choice(sigs)
         if r < 0.12 and sig not in taken:
-            ops.append("foreign %d %s" % (sig, rng.choice(["h1:%d" % rng.randint(0, 7), "h3:%d" % rng.randint(0, 7), "ign", "dfl"])))
+            kind = rng.choice(["h1:%d" % rng.randint(0, 7), "h3:%d" % rng.randint(0, 7), "ign", "dfl"])
+            if kind[0] == "h" and rng.random() < 0.6:
+                # the foreign handler's own sa_flags: SA_RESETHAND, SA_NODEFER, SA_ONSTACK, SA_NOCLDSTOP, SA_RESTART
+                fl = 0
+                for bit in (0x80000000, 0x40000000, 0x08000000, 0x1, 0x10000000):
+                    if rng.random() < 0.35:
+                        fl |= bit
+                if fl:
+                    kind += "+%x" % fl
+            ops.append("foreign %d %s" % (sig, kind))
         elif r < 0.50:
             ops.append("%s %d %d" % (rng.choice(["reg", "regsa", "regu", "regusa"]), sig, tag)); tag += 1
             taken.add(sig); live.append(nreg); nreg += 1
